@@ -293,7 +293,7 @@ func genC08(seed uint64, tier string) Plan {
 		p.Cfg.Concurrency = uint8(g.n(3))
 	}
 	p.Conns = g.conns(p.Cfg, 2)
-	keys := keyAlphabet[:1+g.n(3)]
+	keys := g.keys(1 + g.n(3))
 	now := int64(946684800)
 	var opq uint32 = 1000
 	npipes := 2 + g.n(6)
